@@ -40,7 +40,7 @@ class ScaleSim(Sim):
     PROBES = ["chain_depth_ge_10000", "chain_depth_ge_40000", "recursion_limit_400", "recursion_limit_3000", "fanout_ge_5000", "ladder_ge_2000",
               "untracked_no_grad_loop", "untracked_nograd_operands_loop", "untracked_interleaved_with_tracked", "work_scaling_measured",
               "gc_during_build", "chain_with_view_ops", "same_operand_twice_in_chain", "chain_two_sweeps", "chain_retain_ctx", "chain_retain_every",
-              "untracked_body_mul_param_add_param", "untracked_body_functional", "untracked_body_linear", "untracked_body_views", "untracked_body_unbind", "detached_loop_bptt", "detached_loop_log", "fault_mid_deep_sweep_then_retry",
+              "untracked_body_mul_param_add_param", "untracked_body_functional", "untracked_body_linear", "untracked_body_views", "untracked_body_unbind", "untracked_body_new_scalar_each_step", "detached_loop_bptt", "detached_loop_log", "fault_mid_deep_sweep_then_retry",
               "unrelated_sweeps_between_deep_sweeps", "untracked_loop_inside_retain_grads", "nested_no_grad_left_by_exception_in_loop",
               "same_no_grad_object_reentered_in_loop", "tracked_value_folded_into_untracked_loop"]
     RULE = ("one run = 1-3 large scenarios (deep chain / wide fan-out / diamond ladder / untracked loop / work-scaling pair) with seeded sizes, op "
@@ -77,7 +77,7 @@ class ScaleSim(Sim):
             if rng.random() < 0.3:
                 return {"k": "detached", "n": rng.choice([300, 1000, 3000]), "pattern": rng.choice(["bptt", "log", "numpy_roundtrip"]), "limit": kn["limit"]}
             return {"k": "untracked", "n": rng.choice([10000, 30000, 100000]), "mode": rng.choice(["no_grad", "nograd_operands"]),
-                    "body": rng.choice(["scale_add", "mul_param_add_param", "functional", "linear", "views", "unbind"]),
+                    "body": rng.choice(["scale_add", "mul_param_add_param", "functional", "linear", "views", "unbind", "new_scalar_each_step"]),
                     "tracked_every": rng.choice([0, 0, 2500]), "limit": kn["limit"],
                     "retain_ctx": rng.random() < 0.3, "nested_exc_every": rng.choice([0, 0, 3000]),
                     "fold_tracked_every": rng.choice([0, 0, 7, 500]), "reenter_same_every": rng.choice([0, 0, 1500])}
@@ -295,7 +295,13 @@ class ScaleSim(Sim):
         wtr = SG.Tensor(np.array([0.25, -0.5]), requires_grad=True)      # (created before the block: a parameter of the tracked side computation)
         sg = SG.sg
 
+        counter = [1]
+
         def step(x):
+            if body == "new_scalar_each_step":
+                # a running mean / decay schedule: the Python scalar operand takes a new value at every step
+                counter[0] += 1
+                return x * (1.0 - 1.0 / counter[0]) + w * (1.0 / counter[0])
             if body == "scale_add":
                 return x * 0.5 + w
             if body == "mul_param_add_param":
